@@ -48,8 +48,18 @@ StrideElems == {Opt(IpA)} \cup {Res(IpA, m) : m \in StrideMates} \cup {Res(m, Ip
 StrideTypes == StrideElems \cup {Lst(e) : e \in StrideElems}
 ASSUME \E e \in StrideElems : NeedsRounding(e)
 ASSUME \A e \in D1 : IsEnum(e) /\ NeedsRounding(e) => e \in StrideElems
-TableTypes == D1 \cup D2 \cup Extra \cup StrideTypes
-RunTypes   == IF Depth = 1 THEN D1 \cup StrideTypes ELSE TableTypes
+(* construction routes: a list made on the Rust side stores its elements in their Roto representation. *)
+(* Element types: every Option whose Rust type and mirror have the same size and alignment but a       *)
+(* different encoding (Layout!SameShape), and as controls an Option with a niche (different size), an   *)
+(* element that is its own mirror, Results (same size, the encodings happen to coincide) and a Verdict  *)
+ConstructElems == {Opt(Leaf(l)) : l \in NoNiche}
+                    \cup {Opt(Leaf("String")), Opt(Leaf("bool")), Leaf("u32"), Res(Leaf("u32"), Leaf("u32")),
+                          Res(Leaf("u64"), Leaf("u8")), Ver(Leaf("u32"), Leaf("u64"))}
+ConstructTypes == {Lst(e) : e \in ConstructElems}
+ASSUME \E e \in ConstructElems : SameShape(e)
+ASSUME \A e \in D1 : SameShape(e) => e \in ConstructElems
+TableTypes == D1 \cup D2 \cup Extra \cup StrideTypes \cup ConstructTypes
+RunTypes   == IF Depth = 1 THEN D1 \cup StrideTypes \cup ConstructTypes ELSE TableTypes
 
 (* ---- argument vectors (seven parameters) ---------------------------------- *)
 (* all integer class: with the context pointer (and a return pointer) the later ones travel on the stack *)
@@ -91,6 +101,10 @@ TypeRoutes(t) == {"id", "hecho", "hgive", "const"}
                    \cup (IF IsLeaf(t) THEN {} ELSE {"build", "match"})
                    \cup (IF IsLeaf(t) /\ t # Leaf("()") THEN {"hmeth"} ELSE {})       \* methods live on registered types
                    \cup (IF t[1] = "Verdict" THEN {"buildf"} ELSE {})                \* accept / reject
+                   (* the registered constant taken apart by the script / handed on to a registered function: *)
+                   (* every type that is not a leaf (what is stored is the mirror of the Rust value)          *)
+                   \cup (IF IsLeaf(t) THEN {} ELSE {"constm", "consth"})
+                   \cup (IF IsList(t) THEN ListRoutes ELSE {})                       \* made on the Rust side
 TypeCfgsOf(t) == {Cfg(r, <<t>>, <<v>>, 1, 1) : r \in TypeRoutes(t), v \in Elems(ValueSeq(t))}
                    \cup (IF IsList(t) THEN {Cfg("index", <<t>>, <<v>>, 1, k) : v \in Elems(ValueSeq(t)), k \in 1..3} ELSE {})
 
